@@ -677,7 +677,7 @@ func runC13(tier string, seed uint64) int {
 	rp := newReport("C13", tier, seed)
 	n := 700
 	if tier == "thorough" {
-		n = 40000
+		n = 150000
 	}
 	if v := envInt("VERIF_C13_N"); v > 0 {
 		n = v
